@@ -136,7 +136,7 @@ func init() {
 					q := p
 					q.Release = k
 					out = append(out, uciScenario(q))
-					if tier == "thorough" || (p.Engine == "plain" && k%(3*stride) == 0) {
+					if tier == "thorough" || (p.Engine == "plain" && k%(4*stride) == 0 && strings.Contains(strings.Join(p.Script, " "), "infinite")) {
 						// one engine goroutine is slow for a while after the stop arrives
 						for slow := 2; slow <= 5; slow++ {
 							r := p
@@ -144,7 +144,7 @@ func init() {
 							out = append(out, uciScenario(r))
 						}
 					}
-					if timed && k > 0 { // timers fire half-way to / three quarters of the way to the stop
+					if timed && k > 0 && (tier == "thorough" || p.Engine == "plain" || k%(2*stride) == 0) { // timers fire half-way to / three quarters of the way to the stop
 						q.Timer = k / 2
 						out = append(out, uciScenario(q))
 						q.Timer = 3 * k / 4
